@@ -41,7 +41,7 @@ def run(res, tier, seed, driver_ok):
             res.violations.append({'key': key, 'what': what, 'input': inp, 'observed': obs})
 
     for n in range(N):
-        kind = rnd.choice(['six_r', 'chain'])
+        kind = rnd.choice(['six_r', 'chain', 'chain', 'urdf:' + rnd.choice(armh.URDFS)])
         base6 = [0.0] * 6 if rnd.random() < 0.5 else list(np.concatenate([G.translation(rnd, 2.0), G.rotvec(rnd, 'generic')[0]]))
         seed_arm = rnd.randrange(1 << 30)
         try:
@@ -51,20 +51,28 @@ def run(res, tier, seed, driver_ok):
             bad('raises:constructor:%s' % type(e).__name__, 'Arm(...) raised', {'arm': kind}, repr(e)); break
         nj = spec.n
         lim = rnd.choice([2 * math.pi, 2.0, 1.0])
-        arm.setJointProperties(np.ones(nj) * -lim, np.ones(nj) * lim)
-        spec.mins, spec.maxs = np.ones(nj) * -lim, np.ones(nj) * lim
+        if kind.startswith('urdf:'):
+            lo, hi = spec.mins.copy(), spec.maxs.copy()                  # the file's own limits (asymmetric for irb_2400)
+        elif rnd.random() < 0.5:
+            lo, hi = np.ones(nj) * -lim, np.ones(nj) * lim
+        else:                                                             # asymmetric limits: |lower| != upper, per joint
+            lo = -lim * np.array([rnd.uniform(0.3, 1.0) for _ in range(nj)]); hi = lim * np.array([rnd.uniform(0.3, 1.0) for _ in range(nj)])
+        if not kind.startswith('urdf:'):
+            arm.setJointProperties(lo.copy(), hi.copy())
+        spec.mins, spec.maxs = lo.copy(), hi.copy()
+        mid, half = (lo + hi) / 2, (hi - lo) / 2
         pos_tol, rot_tol = rnd.choice([(1e-4, 1e-5), (1e-3, 1e-4), (1e-5, 1e-4), (1e-4, 1e-3)])
         arm.pos_tolerance, arm.rot_tolerance = pos_tol, rot_tol
         baseT = armh.T6(spec.base6)
         gk = rnd.choice(['reachable', 'reachable', 'reachable', 'boundary', 'beyond'])
-        thg = np.array([rnd.uniform(-lim, lim) * 0.9 for _ in range(nj)])
+        thg = mid + half * 0.9 * np.array([rnd.uniform(-1, 1) for _ in range(nj)])
         if gk == 'boundary':
-            j = rnd.randrange(nj); thg[j] = rnd.choice([-lim, lim])
+            j = rnd.randrange(nj); thg[j] = rnd.choice([lo[j], hi[j]])
         goal = spec.fk(baseT, spec.M, thg)
         if gk == 'beyond':
             goal = goal.copy(); goal[:3, 3] += G.axis(rnd) * 60.0
-        start = thg + np.array([rnd.uniform(-0.02, 0.02) for _ in range(nj)]) if rnd.random() < 0.5 else np.array([rnd.uniform(-lim, lim) for _ in range(nj)])
-        start = np.clip(start, -lim, lim)
+        start = thg + np.array([rnd.uniform(-0.02, 0.02) for _ in range(nj)]) if rnd.random() < 0.5 else np.array([rnd.uniform(lo[j_], hi[j_]) for j_ in range(nj)])
+        start = np.clip(start, lo, hi)
         path = rnd.choice(['constrained', 'constrained', 'free'])
         check = rnd.random() < 0.5
         res.evaluations += 1
@@ -79,7 +87,7 @@ def run(res, tier, seed, driver_ok):
             bad('raises:IK:%s:%s' % (path, type(e).__name__), 'IK raised', {'arm': kind, 'path': path}, repr(e)); continue
         th = np.asarray(th, dtype=float).reshape(-1)
         ok = bool(ok)
-        inp = {'arm': kind, 'seed_arm': seed_arm, 'base6': list(base6), 'limit': lim, 'pos_tol': pos_tol, 'rot_tol': rot_tol, 'goal_kind': gk, 'theta_goal': thg.tolist(),
+        inp = {'arm': kind, 'seed_arm': seed_arm, 'base6': list(base6), 'limit': [lo.tolist(), hi.tolist()], 'pos_tol': pos_tol, 'rot_tol': rot_tol, 'goal_kind': gk, 'theta_goal': thg.tolist(),
                'start': start.tolist(), 'path': path, 'check': check}
         T_fk = spec.fk(baseT, spec.M, th)           # independent FK of the returned vector (no clamping: the vector itself is judged)
         if ok:
@@ -91,7 +99,7 @@ def run(res, tier, seed, driver_ok):
                     'IK reports success but FK of the returned joint vector misses the configured tolerance', inp, {'orientation_error': eo, 'rot_tol': rot_tol, 'position_error': ev, 'pos_tol': pos_tol})
             if gk == 'beyond':
                 bad('unreachable-reached:%s' % path, 'a goal beyond reach was reported as reached', inp, None)
-            if path == 'constrained' and (np.any(th < -lim - 1e-12) or np.any(th > lim + 1e-12)):
+            if path == 'constrained' and (np.any(th < lo - 1e-12) or np.any(th > hi + 1e-12)):
                 bad('out-of-limits', 'limit-respecting solver returned a joint vector outside the limits', inp, th.tolist())
             st = np.asarray(arm._theta, dtype=float).reshape(-1)
             d = (st - th) / (2 * math.pi)
@@ -104,7 +112,7 @@ def run(res, tier, seed, driver_ok):
         # coherent state either way
         st = np.asarray(arm._theta, dtype=float).reshape(-1)
         ee = arm.getEEPos().gTM()
-        cands = [spec.fk(baseT, spec.M, np.clip(st, -lim, lim)), spec.fk(baseT, spec.M, st)]
+        cands = [spec.fk(baseT, spec.M, np.clip(st, lo, hi)), spec.fk(baseT, spec.M, st)]
         if np.any((np.abs(st) > 0) & (np.abs(st) < 1e-6)):
             # a stored joint angle inside the exponential's 1e-6 cut-off band (e.g. 2*pi + 5e-7 wrapped by angleMod): the library's FK
             # treats that joint as not turned, the exact product of exponentials differs by up to 1e-6 * lever. The pose of the stored
@@ -118,7 +126,7 @@ def run(res, tier, seed, driver_ok):
         # targeted starts: the start IS a solution of a nearby goal — the goal is that pose displaced along one basis twist by 0.5x / 3x / 8x
         # the tolerance of that component — so the solver's test of the starting vector decides; both paths, every tolerance pair
         if n % 2 == 0:
-            ths = np.array([rnd.uniform(-lim, lim) * 0.8 for _ in range(nj)])
+            ths = mid + half * 0.8 * np.array([rnd.uniform(-1, 1) for _ in range(nj)])
             T0 = spec.fk(baseT, spec.M, ths)
             for k in (rnd.randrange(3), 3 + rnd.randrange(3)):
                 for mult in (0.5, 3.0, 8.0):
@@ -139,11 +147,11 @@ def run(res, tier, seed, driver_ok):
                         if eo2 > rot_tol * (1 + 1e-6) + 1e-12 or ev2 > pos_tol * (1 + 1e-6) + 1e-12:
                             bad('false-success:%s:%s' % (path2, 'orientation' if eo2 > rot_tol * (1 + 1e-6) else 'position'),
                                 'IK reports success but FK of the returned joint vector misses the configured tolerance',
-                                {'arm': kind, 'seed_arm': seed_arm, 'base6': list(base6), 'limit': lim, 'pos_tol': pos_tol, 'rot_tol': rot_tol, 'start_is_solution_of_displaced_goal': True,
+                                {'arm': kind, 'seed_arm': seed_arm, 'base6': list(base6), 'limit': [lo.tolist(), hi.tolist()], 'pos_tol': pos_tol, 'rot_tol': rot_tol, 'start_is_solution_of_displaced_goal': True,
                                  'theta_start': ths.tolist(), 'displaced_component': k, 'multiple_of_tolerance': mult, 'path': path2},
                                 {'orientation_error': eo2, 'rot_tol': rot_tol, 'position_error': ev2, 'pos_tol': pos_tol})
         # local convergence clause (sampled)
-        if gk == 'reachable' and np.all(np.abs(thg) <= lim - 0.15):
+        if gk == 'reachable' and np.all(thg >= lo + 0.15) and np.all(thg <= hi - 0.15):
             J = arm.jacobian(thg.copy())
             sv = np.linalg.svd(J, compute_uv=False)
             if sv[min(nj, 6) - 1] >= 0.05 and nj >= 6:
@@ -189,7 +197,11 @@ def replay(data):
     with contextlib.redirect_stdout(io.StringIO()):
         arm, spec = armh.build(random.Random(inp['seed_arm']), inp['arm'], inp['base6'])
     n = spec.n; lim = inp['limit']
-    arm.setJointProperties(np.ones(n) * -lim, np.ones(n) * lim)
+    if not inp['arm'].startswith('urdf:'):
+        if isinstance(lim, list):
+            arm.setJointProperties(np.array(lim[0], dtype=float), np.array(lim[1], dtype=float))
+        else:
+            arm.setJointProperties(np.ones(n) * -lim, np.ones(n) * lim)
     arm.pos_tolerance, arm.rot_tolerance = inp['pos_tol'], inp['rot_tol']
     baseT = armh.T6(spec.base6)
     if inp.get('start_is_solution_of_displaced_goal'):
